@@ -308,7 +308,7 @@ def _run_history(case):
 # ------------------------------------------------------------------ model encoder
 
 def _in_domain(case):
-    if case.get("prune_auto") or case.get("mode"):
+    if case.get("prune_auto") or case.get("mode") not in (None, "component") or (case.get("mode") and case["variant"] != "matcher"):
         return False
     for g in (case["g1"], case["g2"]):
         ids = [n for n, _ in g["nodes"]]
@@ -369,7 +369,7 @@ def coq_case(case):
     defs = clist([cN(I(d)) for d in case["node_defaults"]])
     g1, g2 = _coq_graph(case["g1"], case, I), _coq_graph(case["g2"], case, I)
     if case["variant"] == "matcher":
-        return "run_matcher %s %s %s %s %s %s" % (defs, cbool(case.get("prune_wc", False)), cN(I(WILDCARD)), g1, g2,
+        return "%s %s %s %s %s %s %s" % ("run_component" if case.get("mode") == "component" else "run_matcher", defs, cbool(case.get("prune_wc", False)), cN(I(WILDCARD)), g1, g2,
                                                   cbool(case["mcs"]))
     return "run_mtg %s %s %s %s" % (defs, g1, g2, cbool(case["mcs"]))
 
@@ -796,6 +796,15 @@ def _edit(rng, g):
     return h
 
 
+def _as_morphed(prev, new):
+    """The node order networkx has after `prev` was edited in place into `new` (_morph): surviving nodes keep their old
+    position, added nodes follow.  Component-wise mode breaks ties between equally large components by this order."""
+    want = {n: a for n, a in new["nodes"]}
+    old = [n for n, _ in prev["nodes"]]
+    nodes = [[n, want[n]] for n in old if n in want] + [[n, a] for n, a in new["nodes"] if n not in set(old)]
+    return {"nodes": nodes, "edges": new["edges"]}
+
+
 _DIRS = ["G1_to_G2", "G2_to_G1", "pattern_to_host", "kw"]
 
 
@@ -877,14 +886,15 @@ def _histories(rng, n, calls=("fcs",)):
                         a, b = b, a             # make the orientation flip between consecutive calls
                     st.update(g1=a, g2=b)
                     if rng.random() < 0.3:      # ... on recycled graph objects
-                        st.update(src_g1=[k - 1, "g1"], src_g2=[k - 1, "g2"])
+                        st.update(g1=_as_morphed(pr["g1"], a), g2=_as_morphed(pr["g2"], b),
+                                  src_g1=[k - 1, "g1"], src_g2=[k - 1, "g2"])
                 elif f == "swap":
                     st.update(g1=pr["g2"], g2=pr["g1"], src_g1=[k - 1, "g2"], src_g2=[k - 1, "g1"])
                 elif f == "edit":
                     if rng.random() < 0.5:
-                        st.update(g1=_edit(rng, pr["g1"]), g2=pr["g2"])
+                        st.update(g1=_as_morphed(pr["g1"], _edit(rng, pr["g1"])), g2=pr["g2"])
                     else:
-                        st.update(g1=pr["g1"], g2=_edit(rng, pr["g2"]))
+                        st.update(g1=pr["g1"], g2=_as_morphed(pr["g2"], _edit(rng, pr["g2"])))
                     st.update(src_g1=[k - 1, "g1"], src_g2=[k - 1, "g2"])
                 else:
                     st.update(g1=pr["g1"], g2=pr["g2"], src_g1=[k - 1, "g1"], src_g2=[k - 1, "g2"])
@@ -943,6 +953,35 @@ def _degenerate(rng, n):
                      dict(g1=g2, g2=g3, mcs=rng.random() < 0.6, reads=["G1_to_G2", "kw"], src_g1=[0, "g2"]),
                      dict(g1=g3, g2=g1, mcs=True, reads=["pattern_to_host", "G2_to_G1"], src_g1=[1, "g2"], src_g2=[0, "g1"])]
             out.append(_hist_case("history/degenerate", variant, [cfg], steps))
+    return out
+
+
+def _component_cases(rng, n):
+    """Component-wise mode (find_rc_mapping(side='its', component=True)): disconnected graphs with several equally large
+    components (ties are broken by node order), different numbers of components, wildcard pruning that splits components."""
+    out = []
+    for t in range(n):
+        def multi():
+            parts, nxt = [], 1
+            for _ in range(rng.randint(1, 4)):
+                k = rng.choice([1, 2, 2, 3, 3, 4])
+                c = _rand(rng, k, 0.5, connected=True, elements=("C", "C", "O", "N"))
+                ids = [x for x, _ in c["nodes"]]
+                parts.append(G.relabel(c, {i: nxt + j for j, i in enumerate(ids)}))
+                nxt += k
+            g = {"nodes": sum((p["nodes"] for p in parts), []), "edges": sum((p["edges"] for p in parts), [])}
+            return G.shuffle_insertion(G.random_relabel(g, rng, 0, 30), rng)
+        g1, g2 = multi(), multi()
+        kw = {}
+        if rng.random() < 0.3:
+            for g in (g1, g2):
+                for nd_ in g["nodes"]:
+                    if rng.random() < 0.2:
+                        nd_[1]["element"] = "*"
+            kw["prune_wc"] = True
+        if rng.random() < 0.3:
+            kw["implicit"] = True
+        out.append(_mk("component", _gcopy(g1), _gcopy(g2), rng.random() < 0.7, mode="component", **kw))
     return out
 
 
@@ -1046,5 +1085,6 @@ def gen_cases(tier, rng):
     cases += _degenerate(rng, 120 if tier == "quick" else 1000)
     cases += _prune_flip(rng, 60 if tier == "quick" else 500)
     cases += _falsy_order(rng, 50 if tier == "quick" else 400)
+    cases += _component_cases(rng, 150 if tier == "quick" else 1500)
     cases += _sizes(rng, 24 if tier == "quick" else 150)
     return cases
